@@ -292,6 +292,29 @@ def gen_driver(facts, cfg, include_source=True):
             # out events of the multi-client port are C04's business (selection dependent)
         else:
             w(f'    {fname}(sh_, comp_, pump_, "", "{pc.tag(ev)}");')
+    # reentrancy: while the wrapped component handles an event coming in through a port, it raises an event going out
+    # through the same port; both must be routed (exactly once each, the inner one nested in the outer one)
+    for pc in ports:
+        if pc.mc:
+            continue        # the multi-client port: see the inner-out-event histories of C04
+        prov = pc.p.direction == 'provides'
+        inbound = [e for e in pc.p.events if (e.direction == 'in') == prov]       # recorded at the component
+        outbound = [e for e in pc.p.events if (e.direction == 'in') != prov]      # fired by the component
+        if not inbound or not outbound:
+            continue
+        for k, ev in enumerate(inbound):
+            back = outbound[k % len(outbound)]
+            fname = f'fire_{pc.p.name}_{ev.direction}_{ev.name}'
+            decl = ' '.join(f'{value_type(f[1])} {f[0]}({IN_VALUES[i]});' for i, f in enumerate(back.formals))
+            callb = f'{pc.fire_side(back)}({", ".join(f[0] for f in back.formals)})'
+            argsf = ', '.join(f[0] for f in ev.formals)
+            body = (f'auto r_ = saved_({argsf}); raise_back_(); return r_;' if ev.reply[0] != 'void'
+                    else f'saved_({argsf}); raise_back_();')
+            w(f'    {{ auto raise_back_ = [&]{{ {decl} (void){callb}; }};')
+            w(f'      auto saved_ = {pc.record_side(ev)}; {pc.record_side(ev)} = [&, saved_]{handler_sig(ev)} {{ {body} }};')
+            w(f'      H.reset(); std::string res_; try {{ {fname}_call(sh_, comp_, "", res_); pump_.drain(); }} catch (const std::bad_function_call&) {{ res_ += "UNROUTED-WRONG(empty std::function);"; pump_.q.clear(); pump_.in_dispatch = false; }}')
+            w(f'      verif::emit("C01", "route-reentrant", "{pc.tag(ev)}>{pc.tag(back)}", H.log.size() == 2 && H.log[0] == "{pc.tag(ev)}" && H.log[1] == "{pc.tag(back)}" && res_.find("WRONG") == std::string::npos && res_.find("not-carried") == std::string::npos, "hits=" + H.joined() + " " + res_);')
+            w(f'      {pc.record_side(ev)} = saved_; }}')
     if mcport:
         w(f'    {{ const Shell& csh_ = sh_; auto ids_ = csh_.Get{mcport.p.cap}ClientIdentifiers(); std::string j_; for (auto& x_ : ids_) j_ += x_ + ",";')
         w(f'      verif::emit("C04", "client-identifiers", "{mcport.p.name}", ids_.size() == {ncl} && ids_[0] == "A" && (ids_.size() < 2 || ids_[1] == "AB"), j_); }}')
@@ -398,13 +421,34 @@ def gen_c04(facts, cfg, mcport, events):
     w('      Outcome oc; std::string last_probe; Fix fx; Shell& sh_ = *fx.sh; Comp& comp_ = *fx.comp; dzn::pump& pump_ = *fx.pump;')
     w('      bind_all(sh_, comp_, pump_, -1, ncl); sh_.FinalConstruct(&parent);')
     w('      int scripted = 0;')
+    oev0 = outs[0]
+    w('      // the component may raise an out-event of the port WHILE it handles an in-event of a client (inner = true)')
+    w('      bool inner = false;')
+    w('      auto raise_inner = [&]{ ' + args_decl(oev0) + f' comp_.{p.name}.out.{oev0.name}({args_call(oev0)}); }};')
     w(f'      comp_.{p.name}.in.{claim.name} = [&]{handler_sig(claim)} {{ H.hit("{mcport.tag(claim)}"); H.in_dispatch = pump_.in_dispatch; ' +
       ' '.join(f'{f[0]} = {value_type(f[1])}({1000 + IN_VALUES[i]});' for i, f in enumerate(claim.formals) if f[2] != 'in') +
-      ' return FIELDS[scripted]; };')
+      ' if (inner) raise_inner(); return FIELDS[scripted]; };')
+    for ev_ in [release] + others:
+        call_ = f'saved_({args_call(ev_)})'
+        body_ = (f'auto r_ = {call_}; if (inner) raise_inner(); return r_;' if ev_.reply[0] != 'void'
+                 else f'{call_}; if (inner) raise_inner();')
+        w(f'      {{ auto saved_ = comp_.{p.name}.in.{ev_.name}; comp_.{p.name}.in.{ev_.name} = [&, saved_]{handler_sig(ev_)} {{ {body_} }}; }}')
     w('      // three-valued reference model. I1: a newer grant overrules (single sel, denied claims and foreign')
     w('      // releases change nothing). I2: S = clients whose MOST RECENT claim was granted and who have not released')
     w('      // since. I3: L = like S but a denied claim does not cancel an earlier grant. Acceptable = union.')
     w('      int sel = -1; std::set<int> S, L;')
+    w('      // deliveries of ONE out-event judged against the CURRENT reference state')
+    w('      auto acceptable = [&](const std::vector<std::string>& deliveries, std::string& why) {')
+    w('        std::set<std::string> who; bool nobody_ok = false;')
+    w('        if (sel < 0) nobody_ok = true; else who.insert(CLIENTS[sel]);')
+    w('        if (S.empty()) nobody_ok = true; for (int h : S) who.insert(CLIENTS[h]);')
+    w('        if (L.empty()) nobody_ok = true; for (int h : L) who.insert(CLIENTS[h]);')
+    w(f'        std::string pre = "{mcport.tag(outs[0])}@"; bool good;')
+    w('        if (deliveries.empty()) good = nobody_ok;')
+    w('        else if (deliveries.size() == 1) good = deliveries[0].compare(0, pre.size(), pre) == 0 && who.count(deliveries[0].substr(pre.size())) > 0;')
+    w('        else good = false;')
+    w('        if (!good) { std::ostringstream os; os << "delivered to ["; for (auto& d : deliveries) os << d << " "; os << "], acceptable={"; for (auto& x : who) os << x; os << (nobody_ok ? ",nobody}" : "}"); why = os.str(); }')
+    w('        return good; };')
     w('      auto probe = [&](const std::string& when) {')
     oev = outs[0]
     w('        H.reset(); ' + args_decl(oev) + f' comp_.{p.name}.out.{oev.name}({args_call(oev)});')
@@ -421,15 +465,21 @@ def gen_c04(facts, cfg, mcport, events):
     w('      };')
     w('      probe("initially");')
     w('      for (size_t i = 0; i < hist.size(); ++i) {')
-    w('        int op = hist[i], kind = op / 16, c = (op / 4) % 4, r = op % 4; const std::string client_ = CLIENTS[c]; H.reset();')
+    w('        int op = hist[i] % 64, kind = op / 16, c = (op / 4) % 4, r = op % 4; const std::string client_ = CLIENTS[c]; H.reset();')
+    w('        inner = hist[i] >= 64;')
+    w('        // with inner: first hit = the in-event at the component, the rest = deliveries of the inner out-event, which is')
+    w('        // judged against the state BEFORE this operation (a releasing holder is still the holder while its release runs)')
+    w('        auto split_inner = [&](const std::string& what) { if (!inner) return; std::vector<std::string> del(H.log.size() > 1 ? H.log.begin() + 1 : H.log.end(), H.log.end()); std::string why; if (!acceptable(del, why)) { oc.ok = false; if (oc.detail.empty()) oc.detail = "out-event raised by the component while it handles " + what + " of " + client_ + ": " + why; } if (H.log.size() > 1) H.log.resize(1); };')
     w('        if (kind == 0) { scripted = r; ' + args_decl(claim) +
       f' auto got = sh_.ProvidesMultiClient{p.cap}(client_).port.in.{claim.name}({args_call(claim)});')
+    w('          split_inner("the claim");')
     w(f'          bool fine = H.log.size() == 1 && H.log[0] == "{mcport.tag(claim)}" && H.in_dispatch && got == FIELDS[r]' +
       ''.join(f' && {f[0]}.v == {1000 + IN_VALUES[i]}' for i, f in enumerate(claim.formals) if f[2] != 'in') + ';')
     w('          if (!fine) { oc.ok = false; if (oc.detail.empty()) oc.detail = "claim by " + client_ + " not forwarded through the dispatcher / reply lost: hits=" + H.joined(); }')
     w('          if (r == GRANT) { sel = c; S.insert(c); L.insert(c); } else { S.erase(c); }')
     w('        } else if (kind == 1) { ' + args_decl(release) +
       f' sh_.ProvidesMultiClient{p.cap}(client_).port.in.{release.name}({args_call(release)});')
+    w('          split_inner("the release");')
     w(f'          bool fine = H.log.size() == 1 && H.log[0] == "{mcport.tag(release)}" && H.in_dispatch' +
       ''.join(f' && {f[0]}.v == {(1000 + IN_VALUES[i]) if f[2] == "out" else (1000 + IN_VALUES[i])}' for i, f in enumerate(release.formals) if f[2] != 'in') + ';')
     w('          if (!fine) { oc.ok = false; if (oc.detail.empty()) oc.detail = "release by " + client_ + " not forwarded to the configured release event: hits=" + H.joined(); }')
@@ -439,15 +489,16 @@ def gen_c04(facts, cfg, mcport, events):
         w(f'        else if (kind == {2 + k}) {{ ' + args_decl(oth) +
           (f' auto got = ' if oth.reply[0] != 'void' else ' ') +
           f'sh_.ProvidesMultiClient{p.cap}(client_).port.in.{oth.name}({args_call(oth)});')
+        w(f'          split_inner("in-event {oth.name}");')
         w(f'          bool fine = H.log.size() == 1 && H.log[0] == "{mcport.tag(oth)}" && H.in_dispatch' +
           (f' && got == {reply_expr(oth)}' if oth.reply[0] != 'void' else '') + ';')
         w('          if (!fine) { oc.ok = false; if (oc.detail.empty()) oc.detail = "in-event ' + oth.name + ' by " + client_ + " not forwarded: hits=" + H.joined(); } }')
-    w('        probe("after op " + std::to_string(i));')
+    w('        inner = false; probe("after op " + std::to_string(i));')
     w('      }')
     w('      std::ostringstream st; st << sel << "/"; for (int h : S) st << h; st << "/"; for (int h : L) st << h; oc.state = st.str() + "#" + last_probe;')
     w('      return oc;')
     w('    };')
-    w('    auto opname = [&](int op) { int kind = op / 16, c = (op / 4) % 4, r = op % 4; std::string s = kind == 0 ? "claim" : kind == 1 ? "release" : "other" + std::to_string(kind - 2); s += "(" + CLIENTS[c] + ")"; if (kind == 0) s += "=" + std::string(r == GRANT ? "GRANT" : "deny" + std::to_string(r)); return s; };')
+    w('    auto opname = [&](int op) { bool in_ = op >= 64; op %= 64; int kind = op / 16, c = (op / 4) % 4, r = op % 4; std::string s = std::string(in_ ? "+inner-out-event:" : "") + (kind == 0 ? "claim" : kind == 1 ? "release" : "other" + std::to_string(kind - 2)); s += "(" + CLIENTS[c] + ")"; if (kind == 0) s += "=" + std::string(r == GRANT ? "GRANT" : "deny" + std::to_string(r)); return s; };')
     w('    const char* depth_env = std::getenv("VF_C04_DEPTH"); int unpruned_depth = depth_env ? std::atoi(depth_env) : 3;')
     w('    const char* ncl_env = std::getenv("VF_C04_CLIENTS"); int max_clients = ncl_env ? std::atoi(ncl_env) : 2;')
     w('    const char* bfs_env = std::getenv("VF_C04_BFS_DEPTH"); int bfs_depth = bfs_env ? std::atoi(bfs_env) : 6;')
@@ -471,6 +522,24 @@ def gen_c04(facts, cfg, mcport, events):
     w('          if (!oc.ok) { ++bfail; if (bfirst.empty()) { bfirst = "["; for (int o : n) bfirst += opname(o) + " "; bfirst += "] " + oc.detail; } }')
     w('          if (seen.insert(oc.state).second) frontier.push_back(n); } }')
     w('      verif::emit("C04", "histories-bfs", "clients=" + std::to_string(ncl), bfail == 0, "explored=" + std::to_string(explored) + " states=" + std::to_string(seen.size()) + " maxdepth=" + std::to_string(maxd) + " failures=" + std::to_string(bfail) + " " + bfirst);')
+    w('    }')
+    w('    // (4) the component raises an out-event while it handles a client in-event: all histories to depth 2 over the')
+    w('    //     alphabet extended with an "inner" variant of every operation')
+    w('    for (int ncl = 1; ncl <= max_clients; ++ncl) {')
+    w('      std::vector<int> alphabet;')
+    w('      for (int c = 0; c < ncl; ++c) { for (int r = 0; r < NF; ++r) alphabet.push_back(0 * 16 + c * 4 + r); alphabet.push_back(1 * 16 + c * 4);')
+    w(f'        for (int k = 0; k < {len(others)}; ++k) alphabet.push_back((2 + k) * 16 + c * 4); }}')
+    w('      { size_t n0 = alphabet.size(); for (size_t k = 0; k < n0; ++k) alphabet.push_back(alphabet[k] + 64); }')
+    w('      long histories = 0, failures = 0; std::string first_fail;')
+    w('      std::vector<std::vector<int>> level{{}};')
+    w('      for (int d = 0; d <= 2; ++d) { std::vector<std::vector<int>> next;')
+    w('        for (auto& h : level) { bool any_inner = false; for (int op : h) any_inner = any_inner || op >= 64;')
+    w('          if (any_inner) { Outcome oc = run(h, ncl); ++histories;')
+    w('            if (!oc.ok) { ++failures; if (first_fail.empty()) { first_fail = "["; for (int op : h) first_fail += opname(op) + " "; first_fail += "] " + oc.detail; } } }')
+    w('          if (d < 2) for (int op : alphabet) { auto n = h; n.push_back(op); next.push_back(n); } }')
+    w('        level.swap(next); }')
+    w('      verif::emit("C04", "histories-inner-out-events", "clients=" + std::to_string(ncl), failures == 0, "histories=" + std::to_string(histories) + " failures=" + std::to_string(failures) + " " + first_fail);')
+    w(f'      verif::emit("C01", "route-reentrant", "{mcport.tag(outs[0])}@while-handling-a-client-in-event", failures == 0, first_fail);')
     w('    }')
     w('    // (3) every other ORDER in which the same clients can be registered: all histories to depth 2')
     w('    for (int ncl = 2; ncl <= max_clients; ++ncl) {')
